@@ -17,10 +17,10 @@ def run(tier, seed):
     jobs = []
     for prof, b in bins.items():
         for part in EX_PARTS:
-            jobs.append({'profile': prof, 'seed': seed, 'part': part, 'depth': 4 if (th and part in ('ex_u8', 'ex_i8')) else 3, 'cases': [], '_bin': b})
+            jobs.append({'profile': prof, 'seed': seed, 'part': part, 'depth': 4 if ((th and part in ('ex_u8', 'ex_i8')) or (part == 'ex_u8' and prof == 'release')) else 3, 'cases': [], '_bin': b})
         for part in RND_PARTS:
             # several shards of random histories per type
-            for sh in range(4 if th else 1):
+            for sh in range(6 if th else 2):
                 jobs.append({'profile': prof, 'seed': seed * 1000 + sh, 'part': part, 'n_hist': 2500 if th else 500, 'hist_len': 1000 if th else 600, 'cases': [], '_bin': b})
     # heaviest jobs first
     jobs.sort(key=lambda j: 0 if j['part'].startswith('ex_') else 1)
